@@ -8,9 +8,9 @@ cd /verif || exit 2
 D=/tmp/campaign-$P-$$
 mkdir -p $D
 if [ -z "$NOBUILD" ]; then ./check build >/dev/null || exit 2; fi
-cp ${AXSIM_BIN:-sim/target/release/axsim} $D/axsim; cp known_findings.json $D/
+cp ${AXSIM_BIN:-sim/target/release/axsim} $D/axsim; cp ${AXSIM_ARITH_SRC:-sim/target/arith/axsim} $D/axsim-arith; cp known_findings.json $D/
 for s in $(seq $A $B); do
-  env VERIF_SEED=$s VERIF_MAX_MINIMISE=0 VERIF_DIR=$D ${WORKERS:+VERIF_WORKERS=$WORKERS} $D/axsim run $P $T >$D/log 2>&1; rc=$?
+  env AXSIM_ARITH_BIN=$D/axsim-arith VERIF_SEED=$s VERIF_MAX_MINIMISE=0 VERIF_DIR=$D ${WORKERS:+VERIF_WORKERS=$WORKERS} $D/axsim run $P $T >$D/log 2>&1; rc=$?
   python3 - "$D" "$P" "$s" "$rc" <<'PY'
 import json,sys
 d,p,s,rc=sys.argv[1:5]
